@@ -236,7 +236,8 @@ package getoptions
 //@     invariant comp.opt.sound {C17}: !contains(CompPartial(), "=") ==> (forall i int :: 0 <= i && i < len(completions) ==>
 //@       (completions[i] == "-" && CompWord() == "-" && ("-" in currentProgramNode.ChildOptions)) || (exists q string :: (q in $seen) && OptCandidate(currentProgramNode, q) && completions[i] == OptEntry(currentProgramNode, q)))
 //@   loop "for _, e := range lastOpt.SuggestedValues"@2
-//@     invariant comp.first: len(completions) >= 1
+//@     invariant comp.first: len(completions) >= 1 && len(completions) >= old_loop(len(completions))
+//@     invariant comp.kept {C17}: forall k int :: 0 <= k && k < old_loop(len(completions)) ==> completions[k] == old_loop(completions[k])
 //@   loop "for k := range currentProgramNode.ChildCommands"
 //@     invariant comp.cmd.complete {C17}: forall q string :: (q in $seen) && hasprefix(q, CompWord()) ==> inseq(q, completions)
 //@     invariant comp.cmd.sound {C17}: forall i int :: 0 <= i && i < len(completions) ==> (completions[i] in currentProgramNode.ChildCommands) && hasprefix(completions[i], CompWord())
